@@ -178,6 +178,8 @@ SCRIPTS = [
     ["append", "append2", "delete+append", "age", "gc", "delsnap", "age", "gc"],
     # transactions open for hours (their files AND markers two hours old, far below the 24 h abandonment timeout) across collections
     ["append", "opentx", "age", "gc", "opentx", "age", "gc", "append", "gc"],
+    # a live transaction holding a pre-built file in a partition sub-directory, hours old, across collections; then it commits
+    ["append", "opentx-prebuilt", "age", "gc0", "gc1h", "append", "gc0"],
     # fresh garbage: the default-sized grace period leaves it alone, grace 0 removes it
     ["append", "append2", "delete", "expire+", "gc1h", "gc0", "append", "delete", "expire+", "gc0"],
 ]
@@ -192,7 +194,7 @@ def _history(ctx, rep, rng, location, make_store, chdir=None, s3env=None, script
     trace = []
     n_ops = len(script) if script else rng.randint(3, 7 if not ctx.thorough else 14)
     for i in range(n_ops):
-        op = script[i] if script else rng.choice(["append", "append", "append2", "delete", "delete+append", "expire", "delsnap", "opentx", "gc", "gc", "age"])
+        op = script[i] if script else rng.choice(["append", "append", "append2", "delete", "delete+append", "expire", "delsnap", "opentx", "opentx-prebuilt", "gc", "gc", "age"])
         trace.append(op)
         try:
             if op == "append":
@@ -226,6 +228,24 @@ def _history(ctx, rep, rng, location, make_store, chdir=None, s3env=None, script
                 tx = t.new_transaction().begin()
                 tx.append_data(tablekit.rows(1, start=7000 + i))
                 open_txs.append(tx)
+            elif op == "opentx-prebuilt" and len(open_txs) < 2 and s3env is None:
+                # a live transaction that registered a PRE-BUILT file in a partition sub-directory (file-level API)
+                import pyarrow as pa
+                import pyarrow.parquet as pq
+                from datashard.data_structures import DataFile, FileFormat
+                sch_ = t.file_manager.data_file_manager.create_arrow_schema(tablekit.schema())
+                rels_ = [f"data/region=eu/part-{i}.parquet", f"data/region=us/part-{i}.parquet"]      # same base name, two directories
+                dfs_ = []
+                for rel_ in rels_:
+                    full_ = os.path.join(store.root, rel_)
+                    os.makedirs(os.path.dirname(full_), exist_ok=True)
+                    pq.write_table(pa.table({"id": [8000 + i], "name": ["ext"]}, schema=sch_), full_)
+                    dfs_.append(DataFile(file_path="/" + rel_, file_format=FileFormat.PARQUET, partition_values={}, record_count=1,
+                                         file_size_in_bytes=os.path.getsize(full_)))
+                tx = t.new_transaction().begin()
+                tx.append_files(dfs_)
+                tx._verif_prebuilt = rels_
+                open_txs.append(tx)
             elif op == "age":
                 if s3env is not None:
                     _age_all(None, 7200, s3env.fake, store.prefix + "/")
@@ -238,6 +258,7 @@ def _history(ctx, rep, rng, location, make_store, chdir=None, s3env=None, script
                 inflight = set()
                 for tx in open_txs:
                     inflight.update(p.lstrip("/") for p in tx._written_files)
+                    inflight.update(getattr(tx, "_verif_prebuilt", []))
                 ages = {f: (time.time() - store.mtime(f)) * 1000 for f in before}
                 t.garbage_collect(grace_period_ms=grace)
                 after = set(store.list())
@@ -290,8 +311,18 @@ def _history(ctx, rep, rng, location, make_store, chdir=None, s3env=None, script
 
 
 def _marker_protected(store, f):
+    import json as _json
     base = f.rsplit("/", 1)[-1]
-    return store.get(f"metadata/inflight/{base}.inflight") is not None
+    if store.get(f"metadata/inflight/{base}.inflight") is not None:
+        return True
+    for m_ in store.list():
+        if m_.startswith("metadata/inflight/") and m_.endswith(f"-{base}.inflight"):
+            try:
+                if _json.loads(store.get(m_)).get("file_path", "").lstrip("/") == f:
+                    return True
+            except Exception:       # noqa: BLE001
+                return True
+    return False
 
 
 def _end_to_end(ctx, rep):
